@@ -1186,3 +1186,17 @@ for _p in ("C09", "C11"):
          ("class DefectDojoResult(SASTResult):", "@cache\ndef _rule_from_title(title: str) -> Rule:\n    return Rule(id=title, name=title, url=None)\n\n\nclass DefectDojoResult(SASTResult):")],
         "fire", "R-FINDING-OWNS-RULE", "rule-object-per-finding",
         extra_files={"codemodder/utils/update_finding_metadata.py": [("                    finding.rule.name = tool_rule_map[finding.id][0]\n                    finding.rule.url = tool_rule_map[finding.id][1]", "                    finding.rule.name, finding.rule.url = tool_rule_map[finding.id]")]})
+
+FCX = "codemodder/file_context.py"
+add("C06", "findings-lookup-answers-for-a-range-of-lines", FCX,
+    [("    def get_findings_for_location(self, line_number: int):", "    def get_findings_for_location(self, line_number: int, end_line: int | None = None):\n        last_line = line_number if end_line is None else end_line"),
+     ("                location.start.line <= line_number <= location.end.line", "                location.start.line <= last_line and line_number <= location.end.line")],
+    "fire", "R-CHANGE-FINDINGS", "lookup-single-line")
+add("C06", "benign-findings-lookup-two-comparisons-one-line", FCX,
+    [("                location.start.line <= line_number <= location.end.line", "                location.start.line <= line_number and line_number <= location.end.line")],
+    "silent")
+
+UWI = "core_codemods/use_walrus_if.py"
+add("C01", "walrus-value-loses-its-own-parentheses", UWI,
+    [("    def _build_named_expr(self, target, value, parens=True):\n", "    def _build_named_expr(self, target, value, parens=True):\n        if parens and value.lpar:\n            return cst.NamedExpr(target=target, value=value.with_changes(lpar=[], rpar=[]), lpar=value.lpar, rpar=value.rpar)\n")],
+    "fire", "R-PARENS-NOT-STRIPPED", "strip:value")
